@@ -345,7 +345,11 @@ def damage_parity_file(path, rng, how):
             f.write(bytes(size))
     elif how == "truncate":
         with open(path, "r+b") as f:
-            f.truncate(rng.randint(0, max(0, size - 1)))
+            n = rng.randint(0, max(0, size - 1))
+            if rng.random() < 0.6:
+                n -= n % 1024  # block aligned cut (every block size used is a multiple of 1 KiB)... 
+                n -= n % 4096 if rng.random() < 0.5 else 0
+            f.truncate(max(0, n))
     elif how == "random":
         with open(path, "r+b") as f:
             f.write(rng.getrandbits(8 * size).to_bytes(size, "little") if size else b"")
